@@ -112,7 +112,7 @@ def _pieces(ctx):
 
     def rng(t, kind):
         t = look(t)
-        if t[0] == "agg" and t[1].startswith("std::ops::" + kind):
+        if t[0] == "agg" and t[1].split("<")[0].split("::")[:3] == ["std", "ops", kind] and not t[1].startswith("std::ops::" + kind + "Inclusive"):
             return t[3]
         return None
 
